@@ -111,6 +111,20 @@ def opTxnCore (op : String) (a : List String) (st : DrvState) : Option (DrvState
     match loadOnce i.cfg i.env snap ls (← natArg now) (← natArg cutoff) with
     | .error _ => pure (st, "ok refused")
     | .ok r => pure (st.setEnv id { i with env := r.env }, "ok applied")
+  | "prop.c18.cancel", [id, _snap, _lastSynced, _now, _cutoff, _k] => do
+    -- (the implementation could not even build the snapshot from the token)
+    let _ ← st.getEnv id
+    pure (st, "err snapshot-arg")
+  | "prop.c18.cancel", [id, snap, lastSynced, now, cutoff, _k, outcome] => do
+    -- cancellation inside LoadOnce: the implementation says whether the load failed (nothing
+    -- changes: C18_all_or_nothing) or went through (then it is the complete load)
+    let i ← st.getEnv id
+    let snap ← parseSnap snap
+    let ls ← relTxn i lastSynced
+    if outcome == "refused" then pure (st, "ok refused") else
+    match loadOnce i.cfg i.env snap ls (← natArg now) (← natArg cutoff) with
+    | .error _ => pure (st, "FAIL model-refuses-what-the-code-merged")
+    | .ok r => pure (st.setEnv id { i with env := r.env, lastRet := if r.localChanged then i.lastRet else r.txnID }, "ok applied")
   | "prop.c01.load", [id, snap, lastSynced, now, cutoff] => do
     -- (no invention: C01_content_is_written / C01_load_refines_native on this side)
     let i ← st.getEnv id
